@@ -175,7 +175,9 @@ static int replay(const char* s) {
 }
 
 int main(int argc, char** argv) {
-	Args a = parse_args(argc, argv);
+	bool skipBw = false; int na = 1;
+	for (int i = 1; i < argc; ++i) { if (!strcmp(argv[i], "--skip-bitwidth")) skipBw = true; else argv[na++] = argv[i]; }
+	Args a = parse_args(na, argv);
 	if (a.replay) return replay(a.replay);
 	init(a.workers);
 	const int fullUpTo = a.tier ? 16 : 11;
@@ -189,7 +191,7 @@ int main(int argc, char** argv) {
 	me().states += cst; me().cases += ctr;
 	EveryCap<255>::run();
 	sample("closure over every sequence of fields (widths 1..9, values all-zero / all-one) for capacities 1..%d: %lu distinct (cursor, content) states, %lu writes", a.tier ? 22 : 17, cst, ctr);
-	parallel([&](int w, int W) { part_bitwidth(w, W); });
+	if (!skipBw) parallel([&](int w, int W) { part_bitwidth(w, W); });
 	sample("bitWidth(v) == (v ? 32 - clz(v) : 0) for all 2^32 arguments; N-1 < 2^bitWidth(N) for N = 1..255");
 	char extra[200]; snprintf(extra, sizeof extra, ",\"closure_states\":%lu,\"closure_writes\":%lu,\"full_value_range_up_to_width\":%d", cst, ctr, fullUpTo);
 	write_result(a.out, "seqx_bitstream", extra);
